@@ -42,6 +42,9 @@ NEEDED = {
  'C12-5': 'purge matrix over {no flag, ALLOWED only, ALLOWED+COMPLETE}',
  'C12-6': 'withdraw-all inside a deleverage bracket against the daily limit',
  'C13-5': '(caught by the sibling check C08: cooperating foreign-group cell)',
+ 'C19-4': 'fee wallet rotated by the global fee admin, group cache stale / propagated',
+ 'C19-5': 'two-step draw-down: re-point the fee destination (12 signers x own / foreign group slot), then withdraw permissionlessly (C08 caught it as it stood)',
+ 'C19-6': 'funding sweep with Token-2022 reward mints that charge a transfer fee',
  'C14-4': 'extended pause scenario (pause, extend, propagate; probes up to the extended expiry)',
 }
 BUILT_AFTER = {'C09', 'C10', 'C11', 'C19'}  # checks written after their seeds existed
